@@ -62,6 +62,7 @@ package note
 
 //@ func Open
 //@   let KNOWN Verifiers = known @before loop 1
+//@   hint string(sigSplit) == "\n\n"
 //@   ensures [C07] verified_over_text: result1 == nil ==> result0 != nil && len(result0.Sigs) >= 1 && ISTEXTOF(result0.Text, string(msg))
 //@   ensures [C07] every_listed_signature_checked: result1 == nil ==> (forall k int :: 0 <= k && k < len(result0.Sigs) ==> SIGOK(KNOWN, result0.Sigs[k], result0.Text))
 //@   # why opening fails, at the return statements concerned (in source order): only more than 100 signature lines are
